@@ -122,24 +122,31 @@ theorem string_rules_ci (v s : List Char) (q : Option Inquiry) :
   refine ⟨by simp [eval, fold], by simp [eval, fold], by simp [eval, fold], ?_⟩
   simp [eval, fold, PyVal.isInfix_iff]
 
-/-- the network rule is CIDR containment: both parse, and the address agrees with the network on
-the prefix bits -/
+/-- the network rule is CIDR containment: the value parses as an address, the rule's argument as a strict
+network of the same IP version (IPv4 with a decimal prefix, netmask or hostmask; IPv6 with a decimal prefix), and the
+address agrees with the network on the prefix bits -/
 theorem cidr_contains_iff (n a : List Char) (q : Option Inquiry) :
     eval (.cidr (.str n)) (.str a) q = .ok true ↔
-      ∃ ip net p, Cidr.parseIp4 a = some ip ∧ Cidr.parseNet4 n = .ok net p ∧
-        ip / 2 ^ (32 - p) = net / 2 ^ (32 - p) := by
+      ∃ v ip net p, Cidr.parseAddr a = some (v, ip) ∧ Cidr.parseNet n = .ok v net p ∧
+        ip / 2 ^ (Cidr.maxPrefix v - p) = net / 2 ^ (Cidr.maxPrefix v - p) := by
   simp only [eval, evalCidr]
-  cases h1 : Cidr.parseIp4 a with
+  cases h1 : Cidr.parseAddr a with
   | none => simp
-  | some ip =>
-    cases h2 : Cidr.parseNet4 n with
-    | ok net p =>
-      simp [Cidr.contains, Cidr.hostMask]
+  | some av =>
+    obtain ⟨av, ip⟩ := av
+    cases h2 : Cidr.parseNet n with
+    | ok nv net p =>
+      simp only [Cidr.contains, Cidr.hostSize, Except.ok.injEq, Bool.and_eq_true, beq_iff_eq, Option.some.injEq,
+        Prod.mk.injEq, Cidr.NetRes.ok.injEq]
       constructor
-      · intro h; exact ⟨net, p, ⟨rfl, rfl⟩, h⟩
-      · rintro ⟨_, _, ⟨rfl, rfl⟩, h⟩; exact h
+      · rintro ⟨rfl, h⟩; exact ⟨nv, ip, net, p, ⟨rfl, rfl⟩, ⟨rfl, rfl, rfl⟩, h⟩
+      · rintro ⟨v, ip', net', p', ⟨rfl, rfl⟩, ⟨rfl, rfl, rfl⟩, h⟩; exact ⟨rfl, h⟩
     | invalid => simp
     | unmodelled => simp
+
+/-- an address of one IP version is never inside a network of the other -/
+theorem cidr_version_mismatch (nv net p av ip : Nat) (h : nv ≠ av) : Cidr.contains nv net p av ip = false := by
+  simp [Cidr.contains, h]
 
 /-- inquiry-matching rules compare with the current inquiry's own field -/
 theorem inq_match_field (f : InqField) (w : PyVal) (q : Inquiry) :
